@@ -33,6 +33,7 @@ func main() {
 		fmt.Fprintln(os.Stderr, "usage: c20race <workdir> <reps> <masks> <prog>...")
 		os.Exit(2)
 	}
+	optrun.KeepState = true
 	work := os.Args[1]
 	reps, _ := strconv.Atoi(os.Args[2])
 	var masks []int
